@@ -46,7 +46,7 @@ Definition attr_ok (k : kind) (i : Z) : bool :=
   let a := attributes_of k i in
   optZ_eqb (posix_mode (Some a)) (Some i)
   && optk_eqb (entry_kind (Some a)) (Some k)
-  && Bool.eqb (is_directory (Some a)) (kind_eqb k KDir)
+  && Bool.eqb (attr_is_directory (Some a)) (kind_eqb k KDir)
   && Bool.eqb (is_symlink (Some a)) (kind_eqb k KLink)
   && negb (is_junction (Some a)) && negb (is_socket (Some a)) && negb (is_readonly (Some a))
   && optZ_eqb (st_fmt (Some a)) (Some (match k with KFile => 0 | KDir => S_IFDIR | KLink => S_IFLNK end))
@@ -84,7 +84,7 @@ Theorem mode_roundtrip : forall (k : kind) (st_mode : Z),
   let a := attributes_of k st_mode in
   posix_mode (Some a) = Some (S_IMODE st_mode)
   /\ entry_kind (Some a) = Some k
-  /\ is_directory (Some a) = kind_eqb k KDir
+  /\ attr_is_directory (Some a) = kind_eqb k KDir
   /\ is_symlink (Some a) = kind_eqb k KLink
   /\ is_junction (Some a) = false /\ is_socket (Some a) = false /\ is_readonly (Some a) = false
   /\ 0 <= a < 2 ^ 32.
